@@ -3,6 +3,7 @@ package rules
 import (
 	"fmt"
 	"go/ast"
+	"go/token"
 	"go/types"
 	"strings"
 
@@ -195,7 +196,7 @@ func ruleEndStream(c *core.Ctx) {
 // table under write equals the table under !write after renaming Write<->Read.
 func ruleDirectionDuality(c *core.Ctx) {
 	const rule = "G2"
-	c.Rule(rule, "cpp/binary typeRwFunction / typeDefinitionRwFunction / writeSerializers: rows that depend on the `write` flag come in Write/Read pairs with identical guards and arguments; all other rows take the direction only through verb(write)", 10)
+	c.Rule(rule, "cpp/binary typeRwFunction / typeDefinitionRwFunction / writeSerializers: rows that depend on the `write` flag come in Write/Read pairs with identical guards and arguments; all other rows take the direction only through verb(write); every call inside a function with a `write` flag passes that flag on", 50)
 	for _, fn := range []string{"typeRwFunction", "typeDefinitionRwFunction", "writeSerializers"} {
 		rows, d, _ := geeRows(c, "internal/cpp/binary", fn)
 		if d == nil {
@@ -251,6 +252,66 @@ func ruleDirectionDuality(c *core.Ctx) {
 			c.Check(same, rule, key, h.w.Pos, fmt.Sprintf("%q ↔ %q", h.w.Tmpl, h.r.Tmpl), fmt.Sprintf("write emits %q %v but read emits %q %v: the two directions use different encodings", h.w.Tmpl, h.w.Args, h.r.Tmpl, h.r.Args))
 		}
 	}
+	// direction threading: inside a function that has a `write bool` parameter, every call of a
+	// function with such a parameter passes the caller's own flag (or its negation, next to Inverse())
+	for _, d := range c.AllDecls() {
+		p := c.DeclPkg(d)
+		if !backendFiles(c.Fset.Position(d.Pos()).Filename) {
+			continue
+		}
+		own := writeParam(p.TypesInfo, d)
+		if own == nil {
+			continue
+		}
+		for _, cs := range c.Calls(d) {
+			if cs.Callee == nil {
+				continue
+			}
+			cd := c.Decl(cs.Callee)
+			if cd == nil {
+				continue
+			}
+			idx := writeParamIndex(cd)
+			if idx < 0 || idx >= len(cs.Call.Args) {
+				continue
+			}
+			arg := ast.Unparen(cs.Call.Args[idx])
+			if u, ok := arg.(*ast.UnaryExpr); ok && u.Op == token.NOT {
+				arg = ast.Unparen(u.X)
+			}
+			id, isId := arg.(*ast.Ident)
+			ok := isId && p.TypesInfo.Uses[id] == own
+			c.Check(ok, rule, fmt.Sprintf("%s/direction passed to %s", c.FuncName(d), cs.Callee.Name()), cs.Call.Args[idx].Pos(),
+				"the caller's own write flag", fmt.Sprintf("%s passes %s as the direction of %s instead of its own write flag: one direction is generated with the other direction's routines", d.Name.Name, types.ExprString(cs.Call.Args[idx]), cs.Callee.Name()))
+		}
+	}
+}
+
+func writeParamIndex(d *ast.FuncDecl) int {
+	i := 0
+	for _, fl := range d.Type.Params.List {
+		for _, n := range fl.Names {
+			if n.Name == "write" && types.ExprString(fl.Type) == "bool" {
+				return i
+			}
+			i++
+		}
+		if len(fl.Names) == 0 {
+			i++
+		}
+	}
+	return -1
+}
+
+func writeParam(info *types.Info, d *ast.FuncDecl) types.Object {
+	for _, fl := range d.Type.Params.List {
+		for _, n := range fl.Names {
+			if n.Name == "write" && types.ExprString(fl.Type) == "bool" {
+				return info.Defs[n]
+			}
+		}
+	}
+	return nil
 }
 
 // G4: the C++ primitive → routine family table equals refs/wire.json.
